@@ -58,13 +58,11 @@ func runC02(c *Ctx) {
 	}
 
 	// ---------- O-2 unique holder ----------
-	var rows []guardRow
-	for _, r := range guardTable {
-		if (r.Type == "BrokerContext" && (r.Field == "idToSnowflake" || r.Field == "snowflakes" || r.Field == "restrictedSnowflakes")) || (r.Type == "Snowflake" && r.Field == "index") {
-			rows = append(rows, r)
-		}
-	}
-	c.checkGuardRows("O-2 unique holder", rows, broker)
+	c.checkBrokerMatchingRows()
+	// responses and lookups are built from per-request memory: nothing on the match path hands out, or
+	// fills, a package-level buffer or cache (one client's response bytes overwritten by another's)
+	c.checkNoSharedState("O-9 no package-level scratch state on the match path", "broker", broker)
+	c.checkNoSharedState("O-9 no package-level scratch state on the match path", "common/messages", p.FnsIn("common/messages"))
 	// heap slices only inside heap.Interface methods
 	heapT := p.Type("broker", "SnowflakeHeap")
 	if heapT == nil {
@@ -564,7 +562,7 @@ func (c *Ctx) checkRegistration() {
 			// value's id field store in this function uses the same key value
 			val := strip(mu.Value)
 			idVal := structLitField(val, "id")
-			good := idVal != nil && strip(idVal) == strip(mu.Key)
+			good := idVal != nil && fwdStrip(idVal) == fwdStrip(mu.Key)
 			c.check(good, rule, p.FnName(fn)+" inserts idToSnowflake[k] = v with v.id == k", p.instrPos(in), "", "a snowflake is registered under a key that is not the id stored in it: answers for that id reach another snowflake")
 		})
 	}
@@ -663,8 +661,40 @@ func (c *Ctx) checkBridgeListReplaced() {
 		case a.Kind == accWrite && a.What == "field":
 			nStore++
 			st := a.Instr.(*ssa.Store)
-			mm, ok := strip(st.Val).(*ssa.MakeMap)
-			if !ok || mm.Parent() != a.Fn {
+			// a map made by this invocation (possibly in a helper or closure of it, possibly merged with
+			// the nil of an error path that never reaches the store)
+			seenV := map[ssa.Value]bool{}
+			var builtHere func(v ssa.Value) bool
+			builtHere = func(v ssa.Value) bool {
+				v = xstrip(v)
+				if seenV[v] {
+					return true
+				}
+				seenV[v] = true
+				switch x := v.(type) {
+				case *ssa.MakeMap:
+					return rootOf(x.Parent()) == rootOf(a.Fn)
+				case *ssa.Phi:
+					any := false
+					for _, e := range x.Edges {
+						if isNilConst(e) {
+							continue
+						}
+						if !builtHere(e) {
+							return false
+						}
+						any = true
+					}
+					return any
+				case *ssa.FreeVar:
+					if b := freeVarBinding(x); b != nil {
+						return builtHere(b)
+					}
+				}
+				return false
+			}
+			ok := builtHere(st.Val)
+			if !ok {
 				bad = true
 				c.viol(rule, p.FnName(a.Fn)+" assigns bridgeInfo", p.instrPos(a.Instr), "the bridge map is assigned something other than a map built by this invocation")
 			} else if path := conditionalStore(a.Fn, st); path != nil && a.Fn == fn {
@@ -789,4 +819,16 @@ func (c *Ctx) checkBridgeLookup() {
 		}
 		c.check(ok, rule, "BrokerContext.GetBridgeInfo forwards to the bridge list with its parameter", p.Pos(fw.Pos()), "", "the context's lookup is not a plain forward")
 	}
+}
+
+// checkBrokerMatchingRows: the heaps, the id map and Snowflake.index are touched
+// only under snowflakeLock (rows of the guarded-by table).
+func (c *Ctx) checkBrokerMatchingRows() {
+	var rows []guardRow
+	for _, r := range guardTable {
+		if (r.Type == "BrokerContext" && (r.Field == "idToSnowflake" || r.Field == "snowflakes" || r.Field == "restrictedSnowflakes")) || (r.Type == "Snowflake" && r.Field == "index") {
+			rows = append(rows, r)
+		}
+	}
+	c.checkGuardRows("O-2 unique holder", rows, c.P.FnsIn("broker"))
 }
